@@ -450,6 +450,14 @@ class X86_64Arch(Architecture):
                         arg, RmMemDisp(rbp, stack_offset + 16)
                     )
                     stack_offset += arg_loc.size
+                elif isinstance(arg, registers.Register16):
+                    yield bits16.MovRegRm(
+                        arg, RmMemDisp(rbp, stack_offset + 16)
+                    )
+                    stack_offset += arg_loc.size
+                elif isinstance(arg, registers.Register8):
+                    yield MovRegRm8(arg, RmMemDisp(rbp, stack_offset + 16))
+                    stack_offset += arg_loc.size
                 elif isinstance(arg, StackLocation):
                     # Store memcpy action for later:
                     # cps.append((arg.offset, stack_offset, arg.size))
